@@ -13,7 +13,7 @@ Import ListNotations.
    completion token -- with the provider, being finished, being dispatched,
    queued, or already run as a callback; never more callbacks than submissions;
    at most one completion in flight; the task's busy count is exact *)
-Theorem aio_at_most_once : forall fixed ls s, arun fixed aio_init ls = Some s ->
+Theorem aio_at_most_once : forall fixed fdone ls s, arun fixed fdone aio_init ls = Some s ->
   g_subs s = g_cbs s + t_queued s + tokens s /\ g_cbs s <= g_subs s /\ tokens s + t_queued s <= 1 /\
   t_busy s = (if t_prep s then 1 else 0) + t_queued s + t_running s.
 Proof. exact aio_exactly_once. Qed.
@@ -21,14 +21,14 @@ Print Assumptions aio_at_most_once.
 
 (* once nni_aio_stop has returned, every operation submitted before has had its
    callback, and no callback of such an operation starts afterwards *)
-Theorem aio_stop_quiesces : forall fixed ls s, arun fixed aio_init ls = Some s ->
+Theorem aio_stop_quiesces : forall fixed fdone ls s, arun fixed fdone aio_init ls = Some s ->
   g_cb_after_stop s = false /\ (g_stop_returned s = true -> g_subs_at_stop s <= g_cbs s).
 Proof. exact AioProofs.aio_stop_quiesces. Qed.
 Print Assumptions aio_stop_quiesces.
 
 (* the state in which nni_aio_stop returns: nothing queued, running or in flight *)
-Theorem aio_stop_returns_idle : forall fixed s k rest s',
-  Inv1 s -> nth_error (threads s) k = Some (PStopWait :: rest) -> astep fixed s (LRun k) = Some s' ->
+Theorem aio_stop_returns_idle : forall fixed fdone s k rest s',
+  Inv1 s -> nth_error (threads s) k = Some (PStopWait :: rest) -> astep fixed fdone s (LRun k) = Some s' ->
   t_queued s' = 0 /\ t_running s' = 0 /\ tokens s' = 0 /\ g_cbs s' = g_subs s' /\ a_stop s' = a_stop s.
 Proof. exact aio_stop_return_state. Qed.
 Print Assumptions aio_stop_returns_idle.
@@ -36,25 +36,35 @@ Print Assumptions aio_stop_returns_idle.
 (* result consistency, the part that holds: in runs where no abort arrives between
    the completion of an operation and its callback ("late" abort), every callback
    reads the result of the completion that won *)
-Theorem aio_result_consistent_partial : forall fixed ls s s',
-  Inv1 s -> Inv2 s -> InvR s -> arun_nl fixed s ls -> arun fixed s ls = Some s' -> g_bad_result s' = false.
+Theorem aio_result_consistent_partial : forall fixed fdone ls s s',
+  Inv1 s -> Inv2 s -> InvR s -> arun_nl fixed fdone s ls -> arun fixed fdone s ls = Some s' -> g_bad_result s' = false.
 Proof. exact AioProofs.aio_result_consistent_partial. Qed.
 Print Assumptions aio_result_consistent_partial.
 
-(* ... and the part that does not hold on the tree as it is: an abort that arrives
+(* in full, for the source as it is now (the form of nni_aio_abort is read from aio.c on every
+   run; fix e9a11c8): in EVERY run every callback reads the result of the completion that won *)
+Theorem aio_result_consistent : forall fixed ls s,
+  arun fixed C02_ABORT_DONE_FIXED aio_init ls = Some s -> g_bad_result s = false.
+Proof.
+  intros fixed ls s H.
+  exact (aio_result_consistent_holds fixed ls aio_init s inv1_init inv2_init invR_init invD_init H).
+Qed.
+Print Assumptions aio_result_consistent.
+
+(* ... and the pinned nni_aio_abort (before fix e9a11c8), for which it did not hold: an abort that arrives
    after an operation has completed with success, before its callback has run,
    makes the callback read the abort's code (the known finding aio-late-abort) *)
-Theorem aio_result_refuted : forall fixed, exists s, arun fixed aio_init late_abort_run = Some s /\ g_bad_result s = true.
+Theorem aio_result_refuted : forall fixed, exists s, arun fixed false aio_init late_abort_run = Some s /\ g_bad_result s = true.
 Proof. exact AioProofs.aio_result_refuted. Qed.
 Print Assumptions aio_result_refuted.
 
 (* when nni_aio_stop / nni_aio_fini has returned the expire thread holds no reference to the
    aio (not marked, no continuation of the expire loop pending, off the expire list for good):
    the memory may be released *)
-Theorem aio_stop_no_expire_reference : forall fixed ls s,
-  arun fixed aio_init ls = Some s -> g_stop_returned s = true ->
+Theorem aio_stop_no_expire_reference : forall fixed fdone ls s,
+  arun fixed fdone aio_init ls = Some s -> g_stop_returned s = true ->
   a_expiring s = false /\ exp_threads (threads s) = 0 /\ a_on_eq s = false.
-Proof. intros fixed ls s H. exact (proj2 (AioProofs.aio_stop_no_expire_reference fixed ls aio_init s invE_init H)). Qed.
+Proof. intros fixed fdone ls s H. exact (proj2 (AioProofs.aio_stop_no_expire_reference fixed fdone ls aio_init s invE_init H)). Qed.
 Print Assumptions aio_stop_no_expire_reference.
 
 (* the expire loop's scan over the whole queue (Core/ExpireScan.v: batch limit and eq_next):
@@ -84,15 +94,15 @@ Print Assumptions expire_scan_shape_current.
 (* progress: every step of the library's own threads strictly decreases a measure, so
    from any state the completion machinery reaches quiescence within mu steps
    once the environment stops issuing new operations *)
-Theorem aio_bounded_to_completion : forall fixed s l s', internal l -> astep fixed s l = Some s' -> mu s' < mu s.
+Theorem aio_bounded_to_completion : forall fixed fdone s l s', internal l -> astep fixed fdone s l = Some s' -> mu s' < mu s.
 Proof. exact aio_internal_decreases. Qed.
 Print Assumptions aio_bounded_to_completion.
 
 (* the expire loop's scan marks only operations whose deadline has passed ... *)
-Theorem aio_scan_marks_only_due : forall fixed s now s',
-  astep fixed s (LExpire now) = Some s' -> exists e, a_expire s = Some e /\ (e < now)%N.
+Theorem aio_scan_marks_only_due : forall fixed fdone s now s',
+  astep fixed fdone s (LExpire now) = Some s' -> exists e, a_expire s = Some e /\ (e < now)%N.
 Proof.
-  intros fixed s now s' H. cbn [astep] in H. destruct (a_on_eq s && negb (a_expiring s)); [|discriminate].
+  intros fixed fdone s now s' H. cbn [astep] in H. destruct (a_on_eq s && negb (a_expiring s)); [|discriminate].
   destruct (a_expire s) as [e|]; cbn in H; [|discriminate].
   destruct (e <? now)%N eqn:E; cbn in H; [|discriminate]. exists e. split; auto. now apply N.ltb_lt.
 Qed.
@@ -100,61 +110,61 @@ Print Assumptions aio_scan_marks_only_due.
 
 (* ... and, in the source as it is now (the form of the loop is read from aio.c on every
    run), no timeout is ever delivered to an operation whose deadline has not passed *)
-Theorem aio_timeout_never_early : forall ls s s',
-  g_early s = false -> arun C02_EXPIRE_RECHECK_FIXED s ls = Some s' -> g_early s' = false.
+Theorem aio_timeout_never_early : forall fdone ls s s',
+  g_early s = false -> arun C02_EXPIRE_RECHECK_FIXED fdone s ls = Some s' -> g_early s' = false.
 Proof. exact aio_timeout_not_early_holds. Qed.
 Print Assumptions aio_timeout_never_early.
 
 (* the pinned tree did deliver one (repaired by a fix: commit): operation 1 is marked by the
    scan; while the loop has its lock dropped for an earlier entry of the batch it completes
    and operation 2 with a later deadline starts on the same aio; the loop cancels it *)
-Theorem aio_timeout_early_refuted :
-  exists s, arun false aio_init early_timeout_run = Some s /\ g_early s = true.
+Theorem aio_timeout_early_refuted : forall fdone,
+  exists s, arun false fdone aio_init early_timeout_run = Some s /\ g_early s = true.
 Proof. exact AioProofs.aio_timeout_early_refuted. Qed.
 Print Assumptions aio_timeout_early_refuted.
-Theorem aio_timeout_early_repaired :
-  exists s, arun true aio_init early_timeout_run = Some s /\ g_early s = false /\ p_owns s = true /\ a_expiring s = false.
+Theorem aio_timeout_early_repaired : forall fdone,
+  exists s, arun true fdone aio_init early_timeout_run = Some s /\ g_early s = false /\ p_owns s = true /\ a_expiring s = false.
 Proof. exact AioProofs.aio_timeout_early_repaired. Qed.
 Print Assumptions aio_timeout_early_repaired.
 
 (* the functions the H2 trace conformance replays are the framework-field
    projections of the model's steps *)
-Theorem aio_model_steps_are_trace_functions : forall fixed,
-  (forall s rv s', astep fixed s (LAbort rv) = Some s' -> fw_step (TAbort rv) (fw_of s) = Some (fw_of s')) /\
-  (forall s s', astep fixed s LStop = Some s' -> fw_step TStop (fw_of s) = Some (fw_of s')) /\
-  (forall s s', astep fixed s LClose = Some s' -> fw_step TClose (fw_of s) = Some (fw_of s')) /\
-  (forall s s', astep fixed s LReset = Some s' -> fw_step TReset (fw_of s) = Some (fw_of s')) /\
-  (forall s now s', astep fixed s (LExpire now) = Some s' -> fw_step TExpireMark (fw_of s) = Some (fw_of s')).
+Theorem aio_model_steps_are_trace_functions : forall fixed fdone,
+  (forall s rv s', astep fixed fdone s (LAbort rv) = Some s' -> fw_step fdone (TAbort rv) (fw_of s) = Some (fw_of s')) /\
+  (forall s s', astep fixed fdone s LStop = Some s' -> fw_step fdone TStop (fw_of s) = Some (fw_of s')) /\
+  (forall s s', astep fixed fdone s LClose = Some s' -> fw_step fdone TClose (fw_of s) = Some (fw_of s')) /\
+  (forall s s', astep fixed fdone s LReset = Some s' -> fw_step fdone TReset (fw_of s) = Some (fw_of s')) /\
+  (forall s now s', astep fixed fdone s (LExpire now) = Some s' -> fw_step fdone TExpireMark (fw_of s) = Some (fw_of s')).
 Proof.
-  intros fixed. repeat split;
+  intros fixed fdone. repeat split;
     [apply astep_fw_abort|apply astep_fw_stop|apply astep_fw_close|apply astep_fw_reset|apply astep_fw_expire_mark].
 Qed.
 Print Assumptions aio_model_steps_are_trace_functions.
 
-Theorem aio_model_start_is_trace_function : forall fixed s zero dl sleep eok s',
+Theorem aio_model_start_is_trace_function : forall fixed fdone s zero dl sleep eok s',
   a_sleep s = sleep -> (sleep = true -> a_expire_ok s = eok) ->
-  astep fixed s (LStart zero dl sleep eok) = Some s' ->
-  exists k, fw_step k (fw_of s) = Some (fw_of s') /\
+  astep fixed fdone s (LStart zero dl sleep eok) = Some s' ->
+  exists k, fw_step fdone k (fw_of s) = Some (fw_of s') /\
     k = (if a_stop s then TStartStopped else if a_abort s then TStartAborted else if zero then TStartTimeout
          else TStartOk true (match dl with Some _ => true | None => false end)).
 Proof. exact astep_fw_start. Qed.
 Print Assumptions aio_model_start_is_trace_function.
 
-Theorem aio_model_continuations_are_trace_functions : forall fixed s a s1 more, run_pact fixed s a = Some (s1, more) ->
+Theorem aio_model_continuations_are_trace_functions : forall fixed fdone s a s1 more, run_pact fixed s a = Some (s1, more) ->
   match a with
-  | PFinish rv => fw_step (TFinish rv) (fw_of s) = Some (fw_of s1)
-  | PExpireDone => fw_step TExpireDone (fw_of s) = Some (fw_of s1)
+  | PFinish rv => fw_step fdone (TFinish rv) (fw_of s) = Some (fw_of s1)
+  | PExpireDone => fw_step fdone TExpireDone (fw_of s) = Some (fw_of s1)
   | PCallCancel rv =>
-      if p_owns s && p_sleep s then a_sleep s = true -> fw_step (TSleepCancel rv) (fw_of s) = Some (fw_of s1)
+      if p_owns s && p_sleep s then a_sleep s = true -> fw_step fdone (TSleepCancel rv) (fw_of s) = Some (fw_of s1)
       else fw_of s1 = fw_of s
   | PExpireProc now =>
       a_expiring s = true ->
       let due := match a_expire s with Some e => (e <? now)%N | None => false end in
-      if fixed && negb due then fw_step TExpireSkip (fw_of s) = Some (fw_of s1)
+      if fixed && negb due then fw_step fdone TExpireSkip (fw_of s) = Some (fw_of s1)
       else
         let rv := if a_expire_ok s then A_OK else A_TIMEDOUT in
-        exists f1, fw_step (TExpire rv) (fw_of s) = Some f1 /\
-          (if a_sleep s || negb (a_cancel s) then fw_step TExpireDone f1 = Some (fw_of s1) else f1 = fw_of s1)
+        exists f1, fw_step fdone (TExpire rv) (fw_of s) = Some f1 /\
+          (if a_sleep s || negb (a_cancel s) then fw_step fdone TExpireDone f1 = Some (fw_of s1) else f1 = fw_of s1)
   | PDispatch | PStopWait => fw_of s1 = fw_of s
   end.
 Proof. exact run_pact_fw. Qed.
@@ -167,7 +177,7 @@ Print Assumptions aio_consts_match.
 (* non-vacuity: a run with a submission, a timeout and a stop reaches a state that has
    run its callback exactly once *)
 Example aio_run_nonvacuous :
-  exists s, arun true aio_init [LStart false (Some 100%N) false false; LExpire 200%N; LRun 0; LRun 0; LRun 0; LRun 0; LRun 0; LRunCb; LCbDone; LStop; LRun 0]
+  exists s, arun true true aio_init [LStart false (Some 100%N) false false; LExpire 200%N; LRun 0; LRun 0; LRun 0; LRun 0; LRun 0; LRunCb; LCbDone; LStop; LRun 0]
             = Some s /\ g_subs s = 1 /\ g_cbs s = 1 /\ g_stop_returned s = true.
 Proof. eexists. split; [vm_compute; reflexivity|auto]. Qed.
 
